@@ -147,9 +147,7 @@ def worker(args, scratch):
             wit = {"scenario": sc, "size_class": size_class, "fault_pattern": fp, "files": nfiles, "events": len(originals), "posts": [(p["i"], len(p["body"]), p["outcome"]) for p in myposts][:30]}
             if not done:
                 res["violations"].append(["event-processing-did-not-terminate-or-left-files", dict(wit, left=os.listdir(EVDIR))])
-                for x in os.listdir(EVDIR):
-                    os.unlink(os.path.join(EVDIR, x))
-                continue
+                break   # the reader may be stuck for good; later scenarios in this process would only repeat the finding
             batches = {}     # body -> list of outcomes
             for p in myposts:
                 batches.setdefault(p["body"], []).append(p["outcome"])
